@@ -9,7 +9,7 @@ CLAIMS = {
                    'from the failed command to exit(); failure-budget guards (decrement only on failure and '
                    'only while non-zero, starts guarded, reaping not guarded); wait-status decoding guarded '
                    'by WIFEXITED; missing-source error guard and its precedence over Builder::Build; no '
-                   'failure edge of a fallible call reaches a success return in build.cc / ninja.cc. Builder::Build returns the recorded exit code only after a command failure was recorded; an output without a build-log entry is dirty (known finding: generator rules are exempt, so a failed generator command is not retried). Builder::Build returns ExitFailure from its stuck exit.',
+                   'failure edge of a fallible call reaches a success return in build.cc / ninja.cc. Builder::Build returns the recorded exit code only after a command failure was recorded; an output without a build-log entry is dirty (known finding: generator rules are exempt, so a failed generator command is not retried). Builder::Build returns ExitFailure from its stuck exit. Under WIFEXITED the exit code is returned as it is (an exit code 130/143 is a failure of the command, not an interrupt of the build).',
         'not_decided': 'which commands may legitimately start after a failure under a given schedule.',
     },
     'C06': {
@@ -24,7 +24,7 @@ CLAIMS = {
                    'command always reaches a function that releases on all of its paths, Abort releases all '
                    'active edges; process-exit sites reachable while slots are held are enumerated against a '
                    'reasoned table; Jobserver::Slot cannot be copied or forged (compile-fail witnesses); the '
-                   'console pool is the depth-1 pool. A moved-from Jobserver::Slot is invalid on every path of both move operations (release-twice is a no-op). RealCommandRunner::GetActiveEdges reports every entry of subproc_to_edge_ (Abort/Cleanup/ClearJobTokens act on that list); an explicit -j (and -n) disables the jobserver client and only a jobserver client lifts the parallelism bound; targets planned during the build are followed by a scheduling pass for ready edges. SubprocessSet::running_ keeps its order while the pollfd array built from it is in use; a completion that is already queued is handed out without calling DoWork() again.',
+                   'console pool is the depth-1 pool. A moved-from Jobserver::Slot is invalid on every path of both move operations (release-twice is a no-op). RealCommandRunner::GetActiveEdges reports every entry of subproc_to_edge_ (Abort/Cleanup/ClearJobTokens act on that list); an explicit -j (and -n) disables the jobserver client and only a jobserver client lifts the parallelism bound; targets planned during the build are followed by a scheduling pass for ready edges. SubprocessSet::running_ keeps its order while the pollfd array built from it is in use; a completion that is already queued is handed out without calling DoWork() again. A saved position in the pollfd array (the jobserver\'s) names the entry that is pushed next under the conditions of its use.',
         'not_decided': 'the numeric -j / load-average capacity formula (CanRunMore), "never idles" and '
                        '"always terminates" (liveness).',
     },
@@ -55,7 +55,7 @@ CLAIMS = {
                    'the loader entry; scan-time loads happen only behind the pending test and never while the '
                    'producer still has to run; at build time every output of a finished edge is examined, the '
                    'plan walk skips an edge only if it is ready or not in the plan; parsed paths are '
-                   'canonicalised before interning. On every visit of an edge the scan stats its outputs before computing their dirtiness; validations found by a mid-build re-scan are planned unconditionally and followed by a scheduling pass. The re-check used by restat pruning stores exactly the verdict of all(most_recent_input) (no shortcut while a dyndep file is pending).',
+                   'canonicalised before interning. On every visit of an edge the scan stats its outputs before computing their dirtiness; validations found by a mid-build re-scan are planned unconditionally and followed by a scheduling pass. The re-check used by restat pruning stores exactly the verdict of all(most_recent_input) (no shortcut while a dyndep file is pending). Node::dyndep_pending_ has no writer besides its setter (no per-scan reset clears it); a binding is added to edge->env_ only when that scope is the edge\'s own (Edge::has_own_env_) or was just created for it (D22).',
         'not_decided': 'equivalence with the manifest that has the information written in; schedule-dependent '
                        're-want logic in RefreshDyndepDependents.',
     },
@@ -79,7 +79,7 @@ CLAIMS = {
                    'rspfile, or a build-log key under the dead guard (never inputs_/validations_); the three scopes '
                    'agree on the phony exclusion and are compared on the generator exclusion; all-edges/all-outputs '
                    'loops are full-range, depfile and rspfile are covered, dyndep files are loaded first (skipped '
-                   'only if absent or already loaded); by-target recursion marks before descending. Cleaner::RemoveEdgeFiles skips the depfile / rspfile only when the edge has none. RemoveFile reports "not there" only from remove()\'s own ENOENT and never probes the path with a call that follows symlinks.',
+                   'only if absent or already loaded); by-target recursion marks before descending. Cleaner::RemoveEdgeFiles skips the depfile / rspfile only when the edge has none. RemoveFile reports "not there" only from remove()\'s own ENOENT and never probes the path with a call that follows symlinks. `-t clean -r` selects statements by rule name; whether a log key is dead is decided by the node\'s producer and consumers (both tests present).',
         'not_decided': 'that a following build re-creates the removed files.',
     },
     'C01': {
@@ -110,7 +110,7 @@ CLAIMS = {
                    'by the same key; the dirty relations are strict; deps are recorded with Stat() of the same '
                    'output; restat pruning uses == and falls back to the start time; AlreadyUpToDate == '
                    '!more_to_do() and an up-to-date plan returns success without reaching Build; the build log '
-                   'is reopened lazily in append mode after Close(). Plan::CleanNode prunes (un-want / recursion) only after RecomputeOutputsDirty re-examined that very edge. The validation nodes a mid-build re-scan reports are planned for every re-scanned dependent, dirty or not; the restat shortcut of the output check is stated over its three conditions, however they are stored. Outputs are statted after the edge\'s pending dyndep file was loaded (outputs it adds are statted too); a depfile\'s canonical length is stored into the object that is used afterwards.',
+                   'is reopened lazily in append mode after Close(). Plan::CleanNode prunes (un-want / recursion) only after RecomputeOutputsDirty re-examined that very edge. The validation nodes a mid-build re-scan reports are planned for every re-scanned dependent, dirty or not; the restat shortcut of the output check is stated over its three conditions, however they are stored. Outputs are statted after the edge\'s pending dyndep file was loaded (outputs it adds are statted too); a depfile\'s canonical length is stored into the object that is used afterwards. The deps record whose mtime is compared with an output\'s mtime was looked up for that same output.',
         'not_decided': 'that the times recorded at run time dominate the inputs\' times (clock / file system); '
                        'multi-session interplay.',
     },
@@ -138,7 +138,7 @@ CLAIMS = {
                    '(a vanished discovered dep means rebuild, not error); deps are recorded for every output and a '
                    'failed extraction records nothing; depfile/gcc/msvc paths are canonicalised before interning; '
                    'strong typestate: a first scan ends with discovered deps spliced in or deps_missing_ set '
-                   '(violated today: known finding). With a deps type and outside a dry run no success return of FinishCommand avoids RecordDeps; CLParser consults the input-file-name filter only for lines the /showIncludes filter did not recognise. The follow-up output check (after discovered inputs are known) gives no clean verdict with a log entry and a newest input unless the logged mtime was compared with that input (C10.CC).',
+                   '(violated today: known finding). With a deps type and outside a dry run no success return of FinishCommand avoids RecordDeps; CLParser consults the input-file-name filter only for lines the /showIncludes filter did not recognise. The follow-up output check (after discovered inputs are known) gives no clean verdict with a log entry and a newest input unless the logged mtime was compared with that input (C10.CC). After ReadFile of a depfile the loaders go on only behind a branch that established Okay or NotFound (an unreadable depfile is an error).',
         'not_decided': 'metamorphic equality with the variant of a scenario in which the dependency is declared.',
     },
     'C08': {
@@ -152,7 +152,7 @@ CLAIMS = {
                    'LOAD_ERROR; Restat writes only mtime, from Stat, for entries selected by full equality; Recompact '
                    'writes no field, drops/erases only paths reported dead; IsPathDead is true only as Stat==0 of a '
                    'path without producer; rewrites go Close -> temp file -> fclose -> ReplaceContent (unlink then '
-                   'rename, failures propagated). The log header is written exactly when a size/position query on the opened stream says the file is empty. LineReader searches for the newline up to the end of the buffered data (p + n = buf_end_ in linear form); Restat refreshes an entry only if no outputs were named or its output equals a named one (flag or control-flow idiom). The build log is closed before a generator edge is started; appending starts at a line boundary (D19).',
+                   'rename, failures propagated). The log header is written exactly when a size/position query on the opened stream says the file is empty. LineReader searches for the newline up to the end of the buffered data (p + n = buf_end_ in linear form); Restat refreshes an entry only if no outputs were named or its output equals a named one (flag or control-flow idiom). The build log is closed before a generator edge is started; appending starts at a line boundary (D19). Load: the later line of the file wins (every way from the table lookup to the next line passes the four stores); a torn line is skipped and reading goes on.',
         'not_decided': 'equality of the loaded state with a model folded over the complete lines for all byte prefixes; '
                        'buffer arithmetic inside LineReader.',
     },
@@ -168,7 +168,7 @@ CLAIMS = {
                    'Load reads; oversized records are refused before any write and the stdio buffer holds a whole '
                    'record; all fwrites precede one fflush and memory is updated only after it succeeded; the '
                    '"unchanged" shortcut compares mtime, count and every element (no unscaled memcmp); recompaction '
-                   'removes a stale temp, resets all ids, drops only empty/non-live entries, swaps, then replaces. The deps-log header is written exactly when the opened file is empty; a path record enters the node table (set_id, nodes_.push_back) only after the checksum and duplicate-id tests passed. RecordDeps calls RecordId only for a node whose id is still negative at the call.',
+                   'removes a stale temp, resets all ids, drops only empty/non-live entries, swaps, then replaces. The deps-log header is written exactly when the opened file is empty; a path record enters the node table (set_id, nodes_.push_back) only after the checksum and duplicate-id tests passed. RecordDeps calls RecordId only for a node whose id is still negative at the call. A node is created for a path record only where the path left after stripping the padding is known to be non-empty.',
         'not_decided': '"exactly the complete records" for all byte strings; cross-session id consistency as a '
                        'run-time invariant; padding arithmetic values.',
     },
@@ -185,7 +185,7 @@ CLAIMS = {
                    '(compile-fail), build-level values are evaluated in the enclosing scope and paths in the edge '
                    'scope; input kinds are collected in order with their counters, stored after all AddIn calls and '
                    'kept in sync by later erases; manifest, default, command-line and clean paths are canonicalised '
-                   'before interning and no shell-escaped lookup feeds a node identity or file-system call. The std::string overload of CanonicalizePath always delegates to the char* overload (one definition of node identity). Rule::GetBinding answers "no binding" only for a key that is not in the map; the parser of an included / subninja file is constructed with the parent\'s options.',
+                   'before interning and no shell-escaped lookup feeds a node identity or file-system call. The std::string overload of CanonicalizePath always delegates to the char* overload (one definition of node identity). Rule::GetBinding answers "no binding" only for a key that is not in the map; the parser of an included / subninja file is constructed with the parent\'s options. Lookup order build, rule, file also for statements without bindings: the shared file scope is consulted only after the rule (D21); every parsed top-level `name = value` is bound before the next statement; the reserved rule variables are the documented eleven, each recognised by a whole-string equality; ParseFileInclude gets new_scope = false on every `include` path and true on every `subninja` path.',
         'not_decided': 'that the evaluated graph equals the one defined by the manual for every manifest; the lexer\'s '
                        'token grammar (varname alphabet, $-escapes) beyond the sentinel proof of C13.',
     },
@@ -201,7 +201,7 @@ CLAIMS = {
                    'condition (known findings: include cycle, `-t targets depth 0`); nullable results (memchr, getenv, '
                    'fopen, Lookup*, GetDeps, GetBinding) are known non-null at every dereference; begin() of a container is '
                    'dereferenced only where it is known non-empty; std::get on the result variant is guarded by '
-                   'holds_alternative. Zero-expected rules are validated by planted controls on every run. A local fixed-size array handed to a call with an explicit length is accessed within its size (interval bounds with return models for read/fread; the would-be length returned by snprintf is not a bound). Loop progress: every loop whose condition compares a local position/pointer with a bound or tests the byte it points at advances that position on every trip (disjunctive abstract interpretation with find/memchr/strpbrk models, nv/loopprog.py; undecided loops are listed), and every input-driven loop (for(;;), while(ReadLine/PeekToken/getopt)) has no way round without a consuming call. The rule-variable cycle flag is armed before the nested evaluation and never disarmed; a NUL-terminated scan never steps over a byte that may be the terminator. The format argument of every printf-like call (libc and ninja\'s own variadic reporters, found as a fixpoint from the v*printf sinks) is program text, never data (one reasoned exemption); unsigned `x - c` positions are guarded by `x >= c`; every loop around fread/read/fgets branches on the read\'s result or ferror().',
+                   'holds_alternative. Zero-expected rules are validated by planted controls on every run. A local fixed-size array handed to a call with an explicit length is accessed within its size (interval bounds with return models for read/fread; the would-be length returned by snprintf is not a bound). Loop progress: every loop whose condition compares a local position/pointer with a bound or tests the byte it points at advances that position on every trip (disjunctive abstract interpretation with find/memchr/strpbrk models, nv/loopprog.py; undecided loops are listed), and every input-driven loop (for(;;), while(ReadLine/PeekToken/getopt)) has no way round without a consuming call. The rule-variable cycle flag is armed before the nested evaluation and never disarmed; a NUL-terminated scan never steps over a byte that may be the terminator. The format argument of every printf-like call (libc and ninja\'s own variadic reporters, found as a fixpoint from the v*printf sinks) is program text, never data (one reasoned exemption); unsigned `x - c` positions are guarded by `x >= c`; every loop around fread/read/fgets branches on the read\'s result or ferror(). No throwing conversion (std::stoi family) or at() is used; v[0] / front() / back() of a local container is reached only where it is known non-empty (guard fact, or filled on every path; one reasoned exemption).',
         'not_decided': 'memory safety in general (index arithmetic in ElideMiddle, CanonicalizePath, the in-place de-escaping writes of the depfile parser); termination of the re2c scanner loops beyond the NUL sentinel argument, of worklist / plan loops and of loops listed as undecided.',
     },
     'C16': {
@@ -214,7 +214,7 @@ CLAIMS = {
                    'IsKnownShellSafeCharacter accepts (enumerated over its CFG) is within the shell-inert set, names of such bytes '
                    'are appended verbatim once, all others are wrapped in single quotes first-to-last; the response file is '
                    'written in StartEdge with exactly GetBinding("rspfile_content") whenever the rule has one, and removed only '
-                   'after success and without -d keeprsp. RealDiskInterface::WriteFile opens truncating, writes the whole string once and succeeds only after fwrite and fclose succeeded.',
+                   'after success and without -d keeprsp. RealDiskInterface::WriteFile opens truncating, writes the whole string once and succeeds only after fwrite and fclose succeeded. The GetUnescaped* accessors return the looked-up text unchanged (no canonicalisation of a path the command also opens); g_keep_rsp / g_keep_depfile are set only under their own -d names, also through a local reference.',
         'not_decided': 'that /bin/sh reconstructs exactly one word for every name (the quote-escaping sequence needs a shell).',
     },
     'C19': {
